@@ -9,18 +9,26 @@ CONSTANTS DevSet,
 P == INSTANCE KbxProps WITH Devs <- DevSet
 Trace == ndJsonDeserialize(IOEnv.TRACE)
 
-VARIABLES l, s, mismatch, found
-vars == <<l, s, mismatch, found>>
+VARIABLES l, s, mismatch, found,
+          cl,        \* line of the case event of the current case
+          devs,      \* deviations needed to explain some run so far
+          devcases   \* <<line of the case event, deviation>> for the pinned reproducers (leg "P")
+vars == <<l, s, mismatch, found, cl, devs, devcases>>
 
-Init == l = 1 /\ s = P!S0 /\ mismatch = <<>> /\ found = <<>>
+Init == l = 1 /\ s = P!S0 /\ mismatch = <<>> /\ found = <<>> /\ cl = 0 /\ devs = {} /\ devcases = {}
 Next == /\ l <= Len(Trace) /\ mismatch = <<>>
         /\ l' = l + 1
+        /\ cl' = IF Trace[l].k = "case" THEN l ELSE cl
         /\ LET m == P!Mon(s, Trace[l])
                f == P!FirstFail(l, m.cs)
            IN /\ s' = m.s
               /\ mismatch' = IF Collect THEN <<>> ELSE f
               /\ found' = IF Collect /\ f # <<>> THEN Append(found, <<l, f[2]>>) ELSE found
-              /\ (l = Len(Trace) /\ mismatch' = <<>>) => /\ PrintT(<<"VERIF-DEVS", ToJson(m.s.devs)>>)
+              /\ devs' = devs \cup m.s.devs
+              /\ devcases' = IF cl' > 0 /\ "leg" \in DOMAIN Trace[cl'] /\ Trace[cl'].leg = "P"
+                              THEN devcases \cup {<<cl', d>> : d \in m.s.devs} ELSE devcases
+              /\ (l = Len(Trace) /\ mismatch' = <<>>) => /\ PrintT(<<"VERIF-DEVS", ToJson(devs')>>)
+                                                        /\ PrintT(<<"VERIF-DEVCASES", ToJson(devcases')>>)
                                                         /\ (Collect => PrintT(<<"VERIF-FOUND", ToJson(found')>>))
         /\ Report(mismatch')
 NoMismatch == mismatch = <<>>
